@@ -21,6 +21,7 @@ let parse_op toks =
   | ["sel"; b] -> OSel (b <> "0")
   | ["copy"] | ["copyc"] -> OCopy
   | ["bulk"] -> OBulk
+  | ["copys"] -> OSelf
   | _ -> failwith ("bad op: " ^ String.concat " " toks)
 
 let ent ((k, v), s) = Printf.sprintf "%d:%d:%d" (int_of_z k) (int_of_z v) (int_of_nat s)
@@ -61,16 +62,20 @@ let () =
     hash := List.mem "hash" cfg;
     (m_init, s_init) in
   let is_find toks = (match toks with "find" :: _ -> true | _ -> false) in
+  (* operations that read the other container: its state is printed too *)
+  let is_two toks = (match toks with ["copy"] | ["copyc"] | ["copys"] | ["bulk"] -> true | _ -> false) in
   if mode = "model" then
     run_cases file on_case
       (fun (st, sp) _ toks ->
          let o = parse_op toks in
          let (st', (r, c)) = step !flav st o in
-         let ct = m_sel st' in
-         emit (Printf.sprintf "%s%s | %d %d %s | %s" (res_str r)
+         let ct = m_sel st' and co = m_other st' in
+         emit (Printf.sprintf "%s%s%s | %d %d %s | %s%s" (res_str r)
                  (if is_find toks then Printf.sprintf " c=%d" (int_of_nat c) else "")
+                 (if is_two toks then Printf.sprintf " o=%d %s" (int_of_nat co.sz) (iter_str !hash (inorder co.tr)) else "")
                  (int_of_nat ct.sz) (match ct.tr with Leaf -> 1 | _ -> 0)
-                 (iter_str !hash (inorder ct.tr)) (dump_str !hash ct.tr));
+                 (iter_str !hash (inorder ct.tr)) (dump_str !hash ct.tr)
+                 (if is_two toks then " / " ^ dump_str !hash co.tr else ""));
          (st', sp))
       (fun _ -> ())
   else
@@ -82,8 +87,9 @@ let () =
              | _ -> choice_of !flav st o) in
          let (st', _) = step !flav st o in
          let (sp', r) = spec_step !flav sp o ch in
-         let l = s_sel sp' in
-         emit (Printf.sprintf "%s%s | %d %d %s" (res_str r) (if is_find toks then " ?" else "")
+         let l = s_sel sp' and lo = s_other sp' in
+         emit (Printf.sprintf "%s%s%s | %d %d %s" (res_str r) (if is_find toks then " ?" else "")
+                 (if is_two toks then Printf.sprintf " o=%d %s" (List.length lo) (iter_str !hash lo) else "")
                  (List.length l) (if l = [] then 1 else 0) (iter_str !hash l));
          (st', sp'))
       (fun _ -> ())
